@@ -1,10 +1,58 @@
 (* C03 - descriptors do not depend on how the molecule is written.
-   Statements only.  PARTIAL: the invariance over spellings is decided on the
-   implementation by the spelling oracle of this check; the theorems here
-   concern the one step that consumes an ORDERED ring list. *)
+   Statements only (lemmas in Graph/Embed.v, Graph/Embed_inst.v,
+   Ring/Reader_proofs.v, Graph/Scheme_proofs.v).  The matcher-level core is
+   proved for every fragment the reader accepts that carries no molecule
+   prefix and every well-formed molecule graph: renumbering the atoms of the
+   molecule (any permutation phi with inverse psi) renumbers the matches and
+   nothing else - Permutation (matches f (rename m)) (map (map phi) (matches f m)).
+   The step that consumes an ORDERED ring list (Benson aromatisation) is
+   spelling-free for a single ring and order dependent for fused rings
+   (refutation = known finding).  PARTIAL: the lift to the descriptor
+   dictionary and RDKit producing isomorphic prepared graphs for equivalent
+   spellings are decided on the implementation by the spelling oracle. *)
 From Coq Require Import List NArith ZArith Arith Bool.
-From PG Require Import Common.Strs Graph.Mol Graph.Match Graph.Scheme Graph.Scheme_proofs.
+From Coq Require Import Permutation.
+From PG Require Import Common.Strs Ring.Peg Ring.Reader Ring.Reader_proofs Graph.Mol Graph.Match Graph.Match_proofs Graph.Embed Graph.Embed_inst Graph.Scheme Graph.Scheme_proofs.
 Import ListNotations.
+
+(* ---------- matching commutes with renumbering ---------- *)
+Theorem C03_renumbered_molecule_embeds : forall m phi psi, wf_mol m -> wf_rings m ->
+  (forall i, i < natom m -> phi i < natom m /\ psi (phi i) = i) ->
+  (forall k, k < natom m -> psi k < natom m /\ phi (psi k) = k) ->
+  embeds phi m (rename_mol phi psi m).
+Proof. intros m phi psi W R P1 _. apply embeds_rename; assumption. Qed.
+Print Assumptions C03_renumbered_molecule_embeds.
+
+Theorem C03_matches_renumbering : forall elements xlower t f m phi psi,
+  read_fragment elements xlower t = ROk' f -> f_mol f = [] ->
+  wf_mol m -> wf_rings m ->
+  (forall i, i < natom m -> phi i < natom m /\ psi (phi i) = i) ->
+  (forall k, k < natom m -> psi k < natom m /\ phi (psi k) = k) ->
+  Permutation (matches f (rename_mol phi psi m)) (map (map phi) (matches f m)).
+Proof.
+  intros elements xlower t f m phi psi H Hm W R P1 P2.
+  destruct (read_fragment_connected elements xlower t f H) as [C N].
+  apply matches_rename; auto. eapply read_fragment_wf; eauto.
+Qed.
+Print Assumptions C03_matches_renumbering.
+
+(* the general form: any component embedding (renumbering, or a molecule inside a larger graph) *)
+Theorem C03_matches_under_embedding : forall phi m M, embeds phi m M -> forall f img, wf_bonds f -> f_mol f = [] ->
+  In img (matches f m) -> In (map phi img) (matches f M).
+Proof. exact matches_fwd. Qed.
+
+(* non-vacuity: ethanol skeleton C-C-O renumbered by the rotation 0->1->2->0 *)
+Example C03_rename_example :
+  let c := {| a_z := 6; a_chg := 0; a_rad := 0; a_arom := false |} in
+  let o := {| a_z := 8; a_chg := 0; a_rad := 0; a_arom := false |} in
+  let m := {| atoms := [c; c; o]; bonds := [{| b_u := 0; b_v := 1; b_t := BtSingle; b_st := StNone; b_sa := [] |};
+                                             {| b_u := 1; b_v := 2; b_t := BtSingle; b_st := StNone; b_sa := [] |}]; rings := [] |} in
+  let phi := fun i => match i with 0 => 1 | 1 => 2 | _ => 0 end in
+  let psi := fun i => match i with 1 => 0 | 2 => 1 | _ => 2 end in
+  let f := {| f_atoms := [{| qa_sym := SElem 8; qa_chg := None |}; {| qa_sym := SElem 6; qa_chg := None |}];
+              f_bonds := [(1, 0, BtSingle)]; f_bcons := []; f_acons := []; f_stereo := []; f_mol := [] |} in
+  matches f m = [[2; 1]] /\ matches f (rename_mol phi psi m) = [[0; 2]] /\ map (map phi) (matches f m) = [[0; 2]].
+Proof. vm_compute. repeat split; reflexivity. Qed.
 
 (* the Benson aromatisation depends on the order of fused alternating rings:
    formal statement of the known finding (naphthalene skeleton) *)
